@@ -47,6 +47,17 @@ CHECKS = [
      BASE_NOTE + "np.nextafter is an oracle; float rounding of the interpolation is outside the proof (the property's "
      "'few ulp' allowance is applied when the spec is evaluated on the implementation).",
      "Lean 4 proof about a hand-written model + differential correspondence check", "DESIGN.md §5 C02"),
+ chk("C04",
+     "Lean theorems C04_counts / C04_complements / C04_range / C04_nan / C04_definitions prove for ALL rational 2x2 "
+     "matrices (non-negative for the range claim) the count identities, the six complement pairs, the [0,1] range, the "
+     "exact NaN locus and the defining quotients of all 12 rates; C04_ci_shape / C04_ci_spec / C04_ci_mirror / "
+     "C04_ci_nested / C04_ci_wrappers prove centre, half-width z*sqrt(p(1-p)/n), NaN-iff, mirroring and nesting of the "
+     "normal-approximation intervals for any sqrt and z oracles. Tied to /repo by running metrics.* and "
+     "ConfusionMatrix(binary=True) (+aliases) on stacked integer/float matrices incl. zero rows/columns and by evaluating "
+     "the Lean spec predicates on the observed values.",
+     BASE_NOTE + "scipy.stats.norm.isf and np.sqrt are oracles (isf antitone is a hypothesis of nesting); the harness "
+     "checks that the implementation asks isf for alpha/2; float sums/quotients compared with tolerance 1e-9 / 1e-12.",
+     "Lean 4 proof about a hand-written model + differential correspondence check", "DESIGN.md §5 C04"),
 ]
 
 ALL = [f"C{i:02d}" for i in range(1, 21)]
